@@ -4,6 +4,7 @@
 //
 //	lifecycle a <cases.ndjson> <trace.ndjson>            scripted store (fake storage.Storage, model clock)
 //	lifecycle b <cases.ndjson> <trace.ndjson> <workdir>  real sqlite metadatapart store, real timestamps
+//	                                                     (tier "b" programs and tier "p" store probes)
 //
 // The driver holds no expectations: it concretises symbolic inputs (key symbols,
 // minutes, tag pairs) and records what the reconciler did.
@@ -233,9 +234,19 @@ func main() {
 			must(json.Unmarshal(line, &c))
 			rec = runScripted(&c)
 		case "b":
-			var c caseB
-			must(json.Unmarshal(line, &c))
-			rec = rs.runProgram(&c, n)
+			var head struct {
+				Tier string `json:"tier"`
+			}
+			must(json.Unmarshal(line, &head))
+			if head.Tier == "p" {
+				var c caseP
+				must(json.Unmarshal(line, &c))
+				rec = rs.runProbe(&c, n)
+			} else {
+				var c caseB
+				must(json.Unmarshal(line, &c))
+				rec = rs.runProgram(&c, n)
+			}
 		default:
 			fail(fmt.Errorf("unknown tier %q", os.Args[1]))
 		}
